@@ -57,7 +57,10 @@ def _case(draw, kind):
         tol = draw(st.sampled_from([1e6, 1e-3, 1e-8] if dtype != "float32" else [1e6, 1e-3]))
     return dict(part=kind, method=method, dtype=dtype, rhs=rhs, t=t, h=h, y=y, tol=tol,
                 nsteps=draw(st.integers(1, 3)) if kind != "implicit" else draw(st.integers(1, 2)),
-                user_jac=draw(st.booleans()) if kind == "implicit" else False)
+                user_jac=draw(st.booleans()) if kind == "implicit" else False,
+                # before a later step the same integrator object may be sent to an unrelated point (object reuse, edited
+                # state, re-integration after a roll-back): cached slopes must not leak into that step
+                jump=[draw(st.booleans()) for _ in range(2)], jump_y=draw(PR.state(rhs["shape"])), jump_t=draw(st.sampled_from([0.5, -1.25, 7.0])))
 
 
 def parts(tier):
@@ -211,9 +214,14 @@ def check(case):
                     name, dtname, err, allowed, float(t), dTf, step_no), sig, **attrs))
         if viols:
             break
-        # next step continues from the end of this one with the step size the integrator proposes (clamped)
+        # next step continues from the end of this one with the step size the integrator proposes (clamped) ...
         y = (y + dY).astype(dt)
         t = dt(t + dT)
+        if case.get("jump") and step_no < len(case["jump"]) and case["jump"][step_no]:
+            # ... or from an unrelated point, on the same integrator object
+            y = np.asarray(case["jump_y"], dtype=dt).reshape(shape)
+            t = dt(case["jump_t"])
+            labels.append("object_reused_at_unrelated_point")
         nd = float(next_dt)
         if np.isfinite(nd) and nd != 0 and np.sign(nd) == np.sign(float(h)):
             h = dt(np.sign(nd) * min(abs(nd), 2.0))
